@@ -4,14 +4,14 @@ set -u
 ID=$1; N=$2; NAME=$3; PROPS=$4
 WT=/tmp/seed/$ID
 cd $WT || exit 9
-git checkout -q -- . ; git apply out/mut$N.diff 2>/dev/null || git apply --3way out/mut$N.diff >/dev/null 2>&1 || { echo "[$NAME] APPLY FAILED (does not apply to the current HEAD)"; git reset -q --hard; exit 9; }
-git diff > /tmp/seed/$NAME.rebased.diff
+git reset -q --hard ; git apply out/mut$N.diff 2>/dev/null || git apply --3way out/mut$N.diff >/dev/null 2>&1 || { echo "[$NAME] APPLY FAILED (does not apply to the current HEAD)"; git reset -q --hard; exit 9; }
+git diff HEAD > /tmp/seed/$NAME.rebased.diff
 /venv/bin/python out/demo$N.py > /tmp/seed/$NAME.demo_mut.log 2>&1; D1=$?
 if [ -z "${SKIP_TESTS:-}" ]; then
 /venv/bin/python -m pytest -q -p no:cacheprovider --timeout=900 > /tmp/seed/$NAME.tests.log 2>&1; T=$?
 else T=skipped; fi
 TS=$(grep -E "passed|failed" /tmp/seed/$NAME.tests.log | tail -1)
-git checkout -q -- . ; rm -f tests/data/test_multiple.7z
+git reset -q --hard ; rm -f tests/data/test_multiple.7z
 /venv/bin/python out/demo$N.py > /tmp/seed/$NAME.demo_clean.log 2>&1; D0=$?
 echo "[$NAME] demo with mutation: exit $D1 ; tests: rc=$T ($TS) ; demo clean: exit $D0"
 mkdir -p /verif/seeded/$NAME
@@ -23,4 +23,4 @@ for P in $PROPS; do
   VERIF_EVIDENCE_DIR=/tmp/seed/evidence/$NAME VERIF_REPLAY_DIR=/tmp/seed/replays/$NAME VERIF_REPO=$WT PYTHONPATH=$WT ./vcheck $P > /tmp/seed/$NAME.$P.log 2>&1; RC=$?
   echo "[$NAME] vcheck $P exit=$RC: $(grep -c '^VIOLATION' /tmp/seed/$NAME.$P.log) violations; $(tail -1 /tmp/seed/$NAME.$P.log)"
 done
-cd $WT && git checkout -q -- .
+cd $WT && git reset -q --hard
